@@ -284,6 +284,8 @@ class Executor:
         # nothing else keeps the next pop from selecting the step again right away,
         # which would repeat this validation for ever.
         # The flag is cleared when such an input changes state or is reattached.
+        if await self._discard_check_if_declared_again(step):
+            return
         async with self.db:
             step.set_state(StepState.PENDING, step.has_unavailable_dynamic_input())
         self._report_step_counts()
@@ -323,6 +325,9 @@ class Executor:
             # The output files must have been changed externally.
             # The new file hashes of the outputs are not stored,
             # to ensure that they are not deleted in a cleanup phase.
+            return
+
+        if await self._discard_check_if_declared_again(step):
             return
 
         # All checks passed: no need to run the step, just simulate the products.
@@ -874,6 +879,24 @@ class Executor:
     # Command execution helper
     #
 
+    async def _discard_check_if_declared_again(self, step: Step) -> bool:
+        """Drop the result of a hash check when the step was declared anew while it was checked.
+
+        The hashes that were compared belong to the declaration that is gone,
+        so the check cannot let the step off: it goes back to pending without a hash and runs.
+
+        Returns
+        -------
+        discarded
+            Whether the step was declared again and has been made pending.
+        """
+        if step.i not in self.workflow.declared_again:
+            return False
+        self.workflow.declared_again.discard(step.i)
+        await self._reset_step_to_pending(step)
+        self._report_step_counts()
+        return True
+
     async def _restart_if_declared_again(self, run: Run) -> bool:
         """Make a step pending again when it was declared anew while its command ran.
 
@@ -893,8 +916,12 @@ class Executor:
             declared_again = run.step.i in self.workflow.declared_again
             if not declared_again and run.launched_decl == self._declaration(run.step):
                 return False
+            # Also what the command amended: a re-created step keeps the edges to its former
+            # outputs, which are detached by now.
+            paths = set(run.launched_decl[2])
+            paths.update(record.path for record in run.step.out_paths(raw=True))
             out_hashes = {}
-            for path in run.launched_decl[2]:
+            for path in sorted(paths):
                 file = self.workflow.find(File, path)
                 if file is not None and file.get_state() in FILE_STATES_BY_ROLE[FileRole.OUTPUT]:
                     out_hashes[path] = file.get_hash()
